@@ -46,7 +46,10 @@ impl<T: FromJSON + New> JSONArrayOfObjects<T> {
         let mut list: Vec<T> = vec![];
         for item in items {
             let mut object = T::new();
-            object.parse(item).unwrap();
+            let boxed_parse = object.parse(item);
+            if boxed_parse.is_err() {
+                return Err(boxed_parse.err().unwrap());
+            }
             list.push(object);
         }
         Ok(list)
